@@ -294,6 +294,7 @@ fn run(ctx: &mut Ctx) {
             }
         }
     }
+    sweep_named_wide(ctx, ORACLE, TAG);
     sweep_family6(ctx, ORACLE, TAG);
     ctx.global("states", states);
 }
@@ -321,6 +322,7 @@ fn replay(ctx: &mut Ctx, case: &Value) {
         }
         Some("eval-node") | Some("eval-init") => replay_eval(ctx, case, ORACLE, TAG),
         Some("family6") => replay_family6(ctx, case, ORACLE, TAG),
+        Some("named-wide") => replay_named_wide(ctx, case, ORACLE, TAG),
         _ => replay_api(ctx, case, ORACLE, TAG),
     }
 }
